@@ -13,11 +13,12 @@ META = dict(
     level_text=('Theorems (any forest, any scope stack): for every operation of the enumerated `mutating` set whose target (for rebind: the owner of a written key, '
                 'for an Object also the object itself) is treated as sealed, step returns the unchanged state and WritePermission; accessor operations on a '
                 'non-writable target likewise, while rebind ignores the accessor flag; seal(b) sets the flag of every node below; the innermost scope override '
-                'takes precedence over the per-object flag. Tie: correspondence of the model with the implementation on generated histories with sealed / '
+                'takes precedence over the per-object flag; slice assignment / slice deletion (C02 extension of the model) on a list treated as sealed or with '
+                'non-writable accessors return the unchanged state and WritePermission (C08_slice_write_refused). Tie: correspondence of the model with the implementation on generated histories with sealed / '
                 'accessor-protected nodes and nested scopes; every callable attribute of pg.List / pg.Dict / pg.Object instances and of the list/dict bases '
                 'is classified read-only or mapped to a model operation (exhaustive, run every time); direct oracle on every step.'),
     level_note=('Trusted: Coq kernel; extraction cross-checked against vm_compute; driver/generator; the classification table of read-only attributes in c08.py '
-                '(each entry is additionally executed on a sealed instance and must leave it unchanged). Not modelled: slice assignment (classified, executed in the sweep only), '
+                '(each entry is additionally executed on a sealed instance and must leave it unchanged). Slice assignment / deletion are modelled by the C02 extension (tied by the C02 correspondence; here classified and executed in the surface sweep). Not modelled: '
                 'value specs, sym_setparent/sym_setpath/sym_setorigin/use_value_spec plumbing (excluded by name with reason).'),
     rule='a case is (forest literal, list of (scope stack, operation)); non-trivial when a mutating operation is attempted on a target that is treated as sealed or is not accessor-writable',
     trusted_base=['extraction: ExtrOcamlBasic only; ocaml/main.ml lexer/printer; cross-checked against vm_compute on a sample',
